@@ -46,6 +46,10 @@ type trConf struct {
 	init  []string
 	// elemTypes: Lean type of the elements a loop variable ranges over, when it is not a translatable basic type
 	elemTypes map[string]string
+	// foldLoops: also a plain top-level loop (no early exit at all) that assigns one variable becomes a left fold
+	foldLoops bool
+	// atEnd: what a function without results stands for when it runs to its end
+	atEnd string
 }
 
 var trConfs = []trConf{
@@ -437,6 +441,34 @@ var trConfs = []trConf{
 			"err := am.keeper.UpdateGracePeriod(sdkCtx)":       {"phases := phases ++ [\"grace periods\"]", "err := if graceFails then 1 else 0"},
 			"err := am.keeper.JailInactiveValidators(sdkCtx)":  {"phases := phases ++ [\"inactivity sweep\"]", "err := if sweepFails then 1 else 0"}},
 		returns: map[string]string{"return nil": ".returned phases", "return err": ".failed phases"}},
+	{key: "x/skyway.EndBlocker", lean: "skywayEndBlocker", ret: "EndBlockOutcome", foldLoops: true, atEnd: ".returned phases",
+		// one flag stands for EVERY `err != nil` test: with it set, every phase fails — and every later phase must still run
+		params:    []trParam{{"height", "Int"}, {"chains", "List Nat"}, {"everythingFails", "Bool"}},
+		init:      []string{"let mut phases : List String := []"},
+		elemTypes: map[string]string{"chains": "Nat"},
+		atoms:     map[string]string{"err != nil": "everythingFails", "sdkCtx.BlockHeight()": "height", "chains": "chains"},
+		skip: []string{"sdkCtx := sdk.UnwrapSDKContext(ctx)", "logger := liblog.FromKeeper(ctx, k).WithComponent(\"skyway-endblocker\")",
+			"defer func() { if r := recover(); r != nil { logger.WithFields(\"original-error\", r).Warn(\"Recovered panic.\") } }()",
+			"chains := k.EVMKeeper.GetActiveChainNames(ctx)"},
+		stmts: map[string][]string{
+			"err := createBatch(ctx, k)":                      {"phases := phases ++ [\"batches\"]"},
+			"err = attestationTally(ctx, k, v)":               {"phases := phases ++ [s!\"tally {v}\"]"},
+			"err = pruneAttestations(ctx, k, v)":              {"phases := phases ++ [s!\"prune attestations {v}\"]"},
+			"err = k.UpdateValidatorNoncesToLatest(ctx, v)":   {"phases := phases ++ [s!\"validator nonces {v}\"]"},
+			"err = processGasEstimates(ctx, k, cc)":           {"phases := phases ++ [\"gas estimates\"]"},
+			"err = cleanupTimedOutBatches(ctx, k)":            {"phases := phases ++ [\"timed-out batches\"]"}}},
+	{key: "x/evm.AppModule.EndBlock", lean: "evmEndBlock", ret: "EndBlockOutcome",
+		params: []trParam{{"height", "Int"}, {"everythingFails", "Bool"}},
+		init:   []string{"let mut phases : List String := []"},
+		atoms:  map[string]string{"err != nil": "everythingFails", "sdkCtx.BlockHeight()": "height"},
+		skip:   []string{"sdkCtx := sdk.UnwrapSDKContext(ctx)"},
+		stmts: map[string][]string{
+			"am.keeper.TryDeployingLastCompassContractToAllChains(sdkCtx)": {"phases := phases ++ [\"compass deployments\"]"},
+			"am.keeper.AddJustInTimeValsetUpdates(sdkCtx)":                 {"phases := phases ++ [\"just-in-time valset updates\"]"},
+			"err := am.scheduleExternalBalances(sdkCtx)":                   {"phases := phases ++ [\"external balances\"]"},
+			"err := am.scheduleReferenceBlocks(sdkCtx)":                    {"phases := phases ++ [\"reference blocks\"]"},
+			"err := am.keeper.PurgeStaleUserSmartContracts(ctx)":           {"phases := phases ++ [\"stale user contracts\"]"}},
+		returns: map[string]string{"return nil": ".returned phases"}},
 	{key: "x/metrix/keeper.calculateUptime", lean: "calculateUptimeGuard", ret: "Bool",
 		params: []trParam{{"window", "Int"}, {"missed", "Int"}},
 		// only the guard is arithmetic; the division goes through big.Float (modelled in C14's score arithmetic)
@@ -1111,7 +1143,7 @@ func (c *trCtx) block(stmts []ast.Stmt, ind string, out *[]string) {
 			// a loop that never returns or breaks (it may `continue`) and assigns at most one variable declared outside it:
 			// a left fold with that variable as the accumulator; none assigned (logging only): nothing
 			// (used inside another loop's helper, and for bodies with a `continue`; a plain top-level loop stays a `for`)
-			if onlyContinues(s.Body.List) && (c.loop != nil || leavesEarly(s.Body.List)) {
+			if onlyContinues(s.Body.List) && (c.loop != nil || leavesEarly(s.Body.List) || c.conf.foldLoops) {
 				muts := assignedVars(s.Body.List, c.conf)
 				if len(muts) == 0 {
 					continue
@@ -1342,6 +1374,9 @@ func genTranslated(w *world) {
 			}
 		}
 		c.block(fi.decl.Body.List, "  ", &lines)
+		if conf.atEnd != "" {
+			lines = append(lines, "  return "+conf.atEnd)
+		}
 		if c.err != "" {
 			status = append(status, fmt.Sprintf("  (%s, %s)", leanStr(conf.key), leanStr("untranslatable: "+c.err)))
 			fmt.Fprintf(&b, "-- %s: UNTRANSLATABLE (%s); no definition emitted\n\n", conf.key, c.err)
